@@ -18,7 +18,9 @@
 (* / else / else-if arms, after a label) and x, the expression context of  *)
 (* an address-of argument (direct, in parentheses, element of an array     *)
 (* literal argument, member of a struct literal argument, argument of a    *)
-(* nested call, return value, condition).  The rule is context independent.*)
+(* nested call, return value, condition; for whole-aggregate copies: what   *)
+(* is evaluated earlier in the same statement).  The rule is context       *)
+(* independent.                                                            *)
 (*                                                                         *)
 (* R (declarative; errors.md E530-E533, E513, features.md "Views",         *)
 (* "Reference pointers", "Structs and words", property C08):               *)
